@@ -115,8 +115,24 @@ func newRealQueue(conf map[string]qTag) *queue.Tagged {
 	return queue.NewTagged(tags, tagger, grpOf)
 }
 
-func realFile(f qFile) sts.Hashed {
-	base := &mock.File{Name: f.Name, Size: f.Size, Time: qTime(f.Time), Hash: "h-" + f.Name, Done: f.Rec && len(f.Left) == 0}
+// qClock is the clock of one replayed history: a "tick" lets time pass by moving the time of every
+// file (those queued and those pushed later alike, so that no order relation changes) into the past.
+type qClock struct {
+	shift time.Duration
+	files []*mock.File
+}
+
+func (c *qClock) tick() {
+	const d = 40 * time.Hour // abstract times run up to qT0+29h = now+19h; the delay is one hour
+	c.shift += d
+	for _, f := range c.files {
+		f.Time = f.Time.Add(-d)
+	}
+}
+
+func realFile(f qFile, clk *qClock) sts.Hashed {
+	base := &mock.File{Name: f.Name, Size: f.Size, Time: qTime(f.Time).Add(-clk.shift), Hash: "h-" + f.Name, Done: f.Rec && len(f.Left) == 0}
+	clk.files = append(clk.files, base)
 	if !f.Rec {
 		return base
 	}
@@ -140,9 +156,13 @@ func doPop(q *queue.Tagged) *qRes {
 // observed history (full files for pushes, observed results for pops).
 func runHistory(conf map[string]qTag, hist []qEvent, defs map[string][]qFile) []qEvent {
 	q := newRealQueue(conf)
+	clk := &qClock{}
 	obs := make([]qEvent, 0, len(hist))
 	for _, e := range hist {
 		switch e.Op {
+		case "tick":
+			clk.tick()
+			obs = append(obs, qEvent{Op: "tick"})
 		case "push":
 			files := e.Files
 			if files == nil {
@@ -150,7 +170,7 @@ func runHistory(conf map[string]qTag, hist []qEvent, defs map[string][]qFile) []
 			}
 			hs := make([]sts.Hashed, len(files))
 			for i, f := range files {
-				hs[i] = realFile(f)
+				hs[i] = realFile(f, clk)
 			}
 			q.Push(hs)
 			obs = append(obs, qEvent{Op: "push", Files: files})
@@ -321,8 +341,12 @@ func randomHistory(rng *rand.Rand, length int) (map[string]qTag, []qEvent) {
 		return f
 	}
 	var hist []qEvent
+	ticked := false
 	for len(hist) < length {
-		if rng.Intn(5) < 2 {
+		if !ticked && len(hist) > 2 && rng.Intn(12) == 0 {
+			ticked = true
+			hist = append(hist, qEvent{Op: "tick"})
+		} else if rng.Intn(5) < 2 {
 			k := 1 + rng.Intn(3)
 			var files []qFile
 			for j := 0; j < k; j++ {
